@@ -39,8 +39,8 @@ type c01Job struct {
 }
 
 type c01Fork struct {
-	Node  string               `json:"node"`
-	Kind  string               `json:"kind"`
+	Node  string                 `json:"node"`
+	Kind  string                 `json:"kind"`
 	Parts []core.VerifForkIdPart `json:"parts,omitempty"`
 }
 
